@@ -6,9 +6,11 @@ from . import _generic as g
 
 PROP = "C13"
 CORR = "vf.corr.c13"
-# F47 (classes `mock-asyncgen-nature`, `protocol-async-dropped`: a coroutine returning `AsyncIteratorResult`) is repaired: those classes
-# are still computed by the oracle, a recurrence is a violation
-CLASSES = {"mock-groups-by-first-raw-tag": "F23", "mock-tag-case-variants-collide": "F23"}
+# F47 (classes `mock-asyncgen-nature`, `protocol-async-dropped`: a coroutine returning `AsyncIteratorResult`) and F23 (classes
+# `mock-groups-by-first-raw-tag`, `mock-tag-case-variants-collide`, and on the client skeletons `mock-client-props-order`,
+# `mock-client-props-differ`, `mock-client-duplicate-argument`: the mocks emitter grouped by first raw tag) are repaired: those classes
+# are still computed by the oracles, a recurrence is a violation
+CLASSES: dict[str, str] = {}
 
 
 def check(run, ctx) -> None:
@@ -21,10 +23,9 @@ def check(run, ctx) -> None:
     # mock-client-self-argument) map to no finding - a recurrence is a violation.  The `-nonascii` classes (collisions between two tag
     # clients that only non-ASCII tags produce) are reported as a new finding by the F64 work package, listed as F68.
     g.run_oracle(run, ctx, g.Informational(known), "vf.corr.client", "client.py / mock_client.py skeletons on the real ClientVisitor / MocksEmitter",
-                 {k: (v if v in ['F23'] or v.startswith("-") else '-' + v) for k, v in {"mock-groups-by-first-raw-tag": "F23", "mock-client-props-order": "F23", "mock-client-props-differ": "F23", "mock-tag-case-variants-collide": "F23",
-                  "mock-client-duplicate-argument": "F23", "mock-client-empty-init": "F31", "property-name-not-identifier": "F29", "client-syntax-error": "F29",
+                 {k: (v if v in ['F68'] or v.startswith("-") else '-' + v) for k, v in {"mock-client-empty-init": "F31", "property-name-not-identifier": "F29", "client-syntax-error": "F29",
                   "mock-client-syntax-error": "F29", "duplicate-property-name-nonascii": "F68", "private-attr-collision-nonascii": "F68",
-                  "api-client-construction-fails-nonascii": "F68", "tag-client-unreachable-nonascii": "F68"}.items()}, quick=0.5, thorough=4.0)
+                  "api-client-construction-fails-nonascii": "F68", "tag-client-unreachable-nonascii": "F68", "mock-client-duplicate-property-name": "F68"}.items()}, quick=0.5, thorough=4.0)
     known.report_unreplayed()
 
 
